@@ -25,6 +25,7 @@ CORPUS = [
     [(0, 0), (16, 5), (0, 0)], [(0, 0), (16, 5), (4, 0)], [(7, 0), (16, 5), (7, 0)], [(5, 0), (16, 1), (8, 0)],
     [(9, 0), (16, 5), (9, 0)], [(0, 0), (17, 1), (0, 0)],     # mutators vs network memos
     [(10, 0), (18, 0), (10, 0)], [(9, 0), (18, 0), (9, 0)], [(11, 1), (18, 0), (11, 1)],   # set_transform
+    [(10, 0), (18, 1), (10, 0)], [(9, 0), (18, 1), (9, 0)], [(11, 1), (18, 1), (11, 1)], [(10, 0), (18, 2), (11, 1)],
     [(0, 0), (20, 0), (16, 5), (0, 0)], [(7, 2), (20, 0), (7, 0)],
 ]
 
@@ -69,6 +70,8 @@ def cases(tier, rng):
                 a = rng.randrange(2) if raster else 0
             elif c == 19:
                 a = rng.randrange(2)
+            elif c == 18:
+                a = rng.randrange(3)
             elif c == 17:
                 rk = nets.rank(cur)
                 a = int(any(r == -1 for r in rk))
@@ -125,7 +128,7 @@ def impl(case):
         if raster:
             return pyflwdir.FlwdirRaster(idxs_ds=arr, shape=shape, ftype="d8", transform=transform, latlon=latlon, cache=bool(cacheflag))
         return Flwdir(idxs_ds=arr, cache=bool(cacheflag))
-    tr = Affine(30.0, 0.0, 100.0, 0.0, -30.0, 500.0)
+    tr = Affine(0.5, 0.0, 100.0, 0.0, -0.5, 40.0)
     latlon = False
     obj = build(ds_array(ds0), tr, latlon, cache)
     tcount = 0
@@ -185,9 +188,13 @@ def impl(case):
         elif c == 17:
             obj.repair_loops()
         elif c == 18:
-            tcount += 1
-            tr2 = Affine(30.0 + 5 * tcount, 0.0, 100.0, 0.0, -30.0 - 2 * tcount, 500.0)
-            obj.set_transform(tr2, latlon)
+            # arg 0: new affine; 1: same affine, latlon flipped; 2: both
+            if arg in (0, 2):
+                tcount += 1
+                tr = Affine(0.5 + 0.125 * tcount, 0.0, 100.0, 0.0, -0.5 - 0.25 * tcount, 40.0)
+            if arg in (1, 2):
+                latlon = not latlon
+            obj.set_transform(tr, latlon)
         elif c == 19:
             obj.order_cells("sort" if arg == 0 else "walk")
         elif c == 20:
